@@ -272,7 +272,7 @@ func (c *cluster) startNode(n *cnode) {
 	n.notify = make(chan bool, 1)
 	go func(ch chan bool, id, life int) {
 		for v := range ch {
-			c.h.rec("N %d %d %d", id, life, b2i(v))
+			c.h.rec("N %d %d %d %d", id, life, b2i(v), c.h.now())
 		}
 	}(n.notify, n.id, n.life)
 	tmo := 80 * time.Millisecond
@@ -766,4 +766,205 @@ func runVerifyLitmus(rng *rand.Rand, out *bufio.Writer, st *stats, caseNo int) {
 	fmt.Fprintln(out, strconv.Itoa(len(lines))+" ; "+strings.Join(lines, " ; "))
 	st.Cases++
 	st.Distinct++
+}
+
+// runLeaseCase (C13): (a) isolate the leader completely at instant T and watch when it gives up
+// leadership; (b) a long fault-free stretch in which leadership must not change.
+func runLeaseCase(rng *rand.Rand, out *bufio.Writer, st *stats, caseNo int) {
+	h := &hist{t0: time.Now(), seenS: map[string]bool{}}
+	nsrv := 3 + 2*rng.Intn(2)
+	c := &cluster{rng: rng, h: h, blocked: map[[2]int]bool{}, holdMs: map[[2]int]int{}, delayMs: 1 + rng.Intn(4)}
+	_, c.inj = raft.NewInmemTransportWithTimeout("inj", 80*time.Millisecond)
+	c.nodes = []*cnode{nil}
+	var cfg raft.Configuration
+	for i := 1; i <= nsrv; i++ {
+		n := &cnode{id: i, addr: addrOf(i), st: &cstore{InmemStore: raft.NewInmemStore()}, snaps: &snapStore{c: &ctl{failAt: -1, crashAt: -1}}}
+		c.nodes = append(c.nodes, n)
+		suff := raft.Voter
+		if nsrv == 5 && i == 5 && rng.Intn(2) == 0 {
+			suff = raft.Nonvoter // a non-voter on the leader's side must not keep it alive
+		}
+		cfg.Servers = append(cfg.Servers, raft.Server{Suffrage: suff, ID: sidOf(i), Address: n.addr})
+	}
+	h.rec("C %d 0", nsrv)
+	for _, n := range c.nodes[1:] {
+		c.startNode(n)
+	}
+	_ = c.nodes[1].r.BootstrapCluster(cfg).Error()
+	time.Sleep(600 * time.Millisecond)
+	// (b) calm stretch: writes, no faults
+	h.rec("CALM %d", h.now())
+	calm := 2000 + rng.Intn(20000)
+	for t := 0; t < calm; t += 100 {
+		if l := c.leader(); l != nil && rng.Intn(3) == 0 {
+			c.apply(l, "a")
+		}
+		time.Sleep(100 * time.Millisecond)
+	}
+	h.rec("CALMEND %d", h.now())
+	// (a) isolate the leader; a non-voter (if any) stays connected to it
+	if l := c.leader(); l != nil {
+		c.mu.Lock()
+		for o := 1; o <= nsrv; o++ {
+			if o == l.id {
+				continue
+			}
+			if cfg.Servers[o-1].Suffrage == raft.Nonvoter {
+				continue
+			}
+			c.blocked[[2]int{l.id, o}] = true
+			c.blocked[[2]int{o, l.id}] = true
+		}
+		c.mu.Unlock()
+		h.rec("ISO %d %d %d 50", l.id, l.life, h.now())
+		time.Sleep(400 * time.Millisecond)
+		// after stepping down it must refuse writes
+		c.apply(l, "a")
+		time.Sleep(100 * time.Millisecond)
+	}
+	c.mu.Lock()
+	c.blocked = map[[2]int]bool{}
+	c.mu.Unlock()
+	h.rec("Q %d", h.now())
+	time.Sleep(12 * time.Second)
+	for k := 0; k < 3; k++ {
+		if l := c.leader(); l != nil {
+			c.apply(l, "a")
+		}
+		time.Sleep(300 * time.Millisecond)
+	}
+	time.Sleep(2 * time.Second)
+	c.wg.Wait()
+	c.dump("final")
+	h.rec("END %d", h.now())
+	c.mu.Lock()
+	c.stopped = true
+	c.mu.Unlock()
+	for _, n := range c.nodes[1:] {
+		if n.up {
+			c.crash(n)
+		}
+	}
+	h.mu.Lock()
+	lines := h.lines
+	h.mu.Unlock()
+	fmt.Fprintf(out, "CL %d %d\n", caseNo, nsrv)
+	fmt.Fprintln(out, strconv.Itoa(len(lines))+" ; "+strings.Join(lines, " ; "))
+	st.Cases++
+	st.Distinct++
+	st.Hist["lease-case"]++
+	addSample(st, lines)
+}
+
+// runRestoreCase (C20): a user Restore on the leader with writes in flight, lagging or cut-off
+// followers, snapshot index below / at / above the current last index, both store kinds.
+func runRestoreCase(rng *rand.Rand, out *bufio.Writer, st *stats, caseNo int) {
+	h := &hist{t0: time.Now(), seenS: map[string]bool{}}
+	nsrv := 3
+	mono := rng.Intn(2) == 0
+	c := &cluster{rng: rng, h: h, blocked: map[[2]int]bool{}, holdMs: map[[2]int]int{}, delayMs: 1 + rng.Intn(4)}
+	_, c.inj = raft.NewInmemTransportWithTimeout("inj", 80*time.Millisecond)
+	c.nodes = []*cnode{nil}
+	var cfg raft.Configuration
+	for i := 1; i <= nsrv; i++ {
+		n := &cnode{id: i, addr: addrOf(i), st: &cstore{InmemStore: raft.NewInmemStore(), mono: mono}, snaps: &snapStore{c: &ctl{failAt: -1, crashAt: -1}}}
+		c.nodes = append(c.nodes, n)
+		cfg.Servers = append(cfg.Servers, raft.Server{Suffrage: raft.Voter, ID: sidOf(i), Address: n.addr})
+	}
+	h.rec("C %d %d", nsrv, b2i(mono))
+	for _, n := range c.nodes[1:] {
+		c.startNode(n)
+	}
+	_ = c.nodes[1].r.BootstrapCluster(cfg).Error()
+	time.Sleep(500 * time.Millisecond)
+	for k, m := 0, 2+rng.Intn(8); k < m; k++ {
+		if l := c.leader(); l != nil {
+			c.apply(l, "a")
+		}
+		time.Sleep(time.Duration(5+rng.Intn(30)) * time.Millisecond)
+	}
+	// optionally cut a follower off so that it lags behind the restore
+	l := c.leader()
+	if l != nil && rng.Intn(2) == 0 {
+		f := 1 + rng.Intn(nsrv)
+		if f != l.id {
+			c.mu.Lock()
+			c.blocked[[2]int{l.id, f}] = true
+			c.blocked[[2]int{f, l.id}] = true
+			c.mu.Unlock()
+		}
+		for k := 0; k < 2; k++ {
+			c.apply(l, "a")
+			time.Sleep(20 * time.Millisecond)
+		}
+	}
+	if l != nil {
+		// writes in flight while the restore runs
+		for k, m := 0, rng.Intn(4); k < m; k++ {
+			c.apply(l, "a")
+		}
+		last := int(l.r.LastIndex())
+		metaIdx := []int{1, last, last + 1 + rng.Intn(5), last / 2}[rng.Intn(4)]
+		if metaIdx < 1 {
+			metaIdx = 1
+		}
+		var data []int
+		for k, m := 0, rng.Intn(5); k < m; k++ {
+			data = append(data, 9000+caseNo%100*10+k)
+		}
+		blob := encodeState(data)
+		meta := &raft.SnapshotMeta{Version: 1, ID: "user", Index: uint64(metaIdx), Term: l.r.CurrentTerm(), Size: int64(len(blob))}
+		t0 := h.now()
+		h.rec("RI %d %d %d", l.id, l.life, t0)
+		err := l.r.Restore(meta, strings.NewReader(string(blob)), 2*time.Second)
+		h.rec("R %d %d %d %d %d %d %d %s", l.id, l.life, t0, h.now(), b2i(err == nil), metaIdx, last, intsTok(data))
+		st.Hist[fmt.Sprintf("restore-ok=%v", err == nil)]++
+		for k, m := 0, 1+rng.Intn(4); k < m; k++ {
+			if l2 := c.leader(); l2 != nil {
+				c.apply(l2, "a")
+			}
+			time.Sleep(time.Duration(5+rng.Intn(30)) * time.Millisecond)
+		}
+	}
+	c.mu.Lock()
+	c.blocked = map[[2]int]bool{}
+	c.mu.Unlock()
+	h.rec("Q %d", h.now())
+	time.Sleep(15 * time.Second)
+	for k := 0; k < 2; k++ {
+		if l2 := c.leader(); l2 != nil {
+			c.apply(l2, "a")
+		}
+		time.Sleep(300 * time.Millisecond)
+	}
+	time.Sleep(2 * time.Second)
+	c.wg.Wait()
+	c.dump("final")
+	h.rec("END %d", h.now())
+	c.mu.Lock()
+	c.stopped = true
+	c.mu.Unlock()
+	for _, n := range c.nodes[1:] {
+		if n.up {
+			c.crash(n)
+		}
+	}
+	h.mu.Lock()
+	lines := h.lines
+	h.mu.Unlock()
+	fmt.Fprintf(out, "CL %d %d\n", caseNo, nsrv)
+	fmt.Fprintln(out, strconv.Itoa(len(lines))+" ; "+strings.Join(lines, " ; "))
+	st.Cases++
+	st.Distinct++
+	addSample(st, lines)
+}
+
+func addSample(st *stats, lines []string) {
+	if len(st.Samples) < 2 {
+		smp := strings.Join(lines, " ; ")
+		if len(smp) > 700 {
+			smp = smp[:700] + " ..."
+		}
+		st.Samples = append(st.Samples, smp)
+	}
 }
